@@ -145,6 +145,10 @@ def boundary_script(rng, algo, name):
         for k in range(1, 8):
             vals += [(1 << (8 * k)) - 3]
         vals += [(1 << 56) + 5, (1 << 64) - 2, (1 << 72) - 2, (1 << 80) - 2]
+        if side == "b":
+            # the lower half from its very bottom to its very top: the counter must run on upwards (out of the half, never back onto used values).
+            # (Not for the upper half: there the 12-byte counter of the code wraps to zero after 2^95 seals, which the property's bound excludes.)
+            vals = [0] + vals + [(1 << 95) - 3]
         for v in sorted(set(vals)):
             ops.append("setsend %s 0 %s" % (side, nonce_hex(base + v)))
             for _ in range(5):
